@@ -88,6 +88,13 @@ class Map(Sort):
         self.keykind, self.valkind, self.val_lo, self.val_hi = keykind, valkind, val_lo, val_hi
 
 
+class Expr(Sort):
+    """A value defined by a contract expression over the parameters declared before it (ghost parameters that
+    are not in the function's signature are allowed and are not passed to the function)."""
+    def __init__(self, src):
+        self.src = src
+
+
 class Opaque(Sort):
     """An object the function only passes around (never inspected)."""
     pass
